@@ -1016,7 +1016,25 @@ class Sim:
             s["stdin"] = args[0]
         return "ok"
 
+    def check_protected_getters(self, rec):
+        """PROTECTED but documented getters of MSAApp: sequence type and the temp-file paths handed to the tool."""
+        app = rec.app
+        if rec.kind in ("stublocal", "stubpoll") or app is None:
+            return
+        st, v = call(app.get_seqtype)
+        if st == "exc" or v != rec.seqtype:
+            self.fail("getter:wrong-value", kind=rec.kind, op="get_seqtype", got=v if st == "ok" else exc_name(v), expected=rec.seqtype)
+        st, v = call(lambda: (app.get_input_file_path(), app.get_output_file_path(), app.get_matrix_file_path()))
+        if st == "exc":
+            self.fail("getter:raised", kind=rec.kind, op="get_*_file_path", got=exc_name(v))
+        inp, outp, matp = v
+        if not rec.ended and not (inp in rec.files and outp in rec.files):
+            self.fail("getter:wrong-value", kind=rec.kind, op="get_*_file_path", got=[self.rel(inp), self.rel(outp)])
+        if (matp is not None) != (rec.matrix is not None):
+            self.fail("getter:wrong-value", kind=rec.kind, op="get_matrix_file_path", got=self.rel(matp), matrix=rec.matrix is not None)
+
     def x_state(self, rec, op, fn, args, kwargs):
+        self.check_protected_getters(rec)
         st, val = call(fn)
         if st == "exc":
             self.fail("state:get_app_state-raised", kind=rec.kind, got=exc_name(val), state=rec.state)
